@@ -278,34 +278,16 @@ namespace igris
         template <typename... Args>
         iterator emplace(const_iterator pos, Args &&... args)
         {
-            // TODO insert optimization
-            size_t _pos = pos - m_data;
-
-            reserve(m_size + 1);
-            m_size++;
-
-            iterator first = m_data + _pos;
-            iterator last = std::prev((iterator)end());
-            std::move_backward(first, last, end());
-            new (first) T(std::forward<Args>(args)...);
-
-            return first;
+            // the new element is built first: the arguments may refer to
+            // elements of this vector
+            T value(std::forward<Args>(args)...);
+            return insert_moved(pos - m_data, std::move(value));
         }
 
         iterator insert(const_iterator pos, const T &value)
         {
-            // TODO insert optimization
-            size_t _pos = pos - m_data;
-
-            reserve(m_size + 1);
-            m_size++;
-
-            iterator first = m_data + _pos;
-            iterator last = std::prev((iterator)end());
-            std::move_backward(first, last, (iterator)end());
-            *first = value;
-
-            return first;
+            T copy(value); // value may be an element of this vector
+            return insert_moved(pos - m_data, std::move(copy));
         }
 
         iterator insert(iterator pos, const_iterator first, const_iterator last)
@@ -313,17 +295,18 @@ namespace igris
             size_t _pos = pos - m_data;
             size_t _first = first - m_data;
             size_t _last = last - m_data;
-
             size_t sz = _last - _first;
+
+            // the range lies in this vector: copy it out before anything moves
+            vector tmp;
+            tmp.reserve(sz);
+            for (size_t i = _first; i < _last; ++i)
+                tmp.push_back(m_data[i]);
+
             reserve(m_size + sz);
-            m_size += sz;
-
-            iterator first_it = m_data + _pos;
-            iterator last_it = std::prev((iterator)end(), sz);
-            std::move_backward(first_it, last_it, (iterator)end());
-            std::copy(m_data + _first, m_data + _last, first_it);
-
-            return first_it;
+            for (size_t i = 0; i < sz; ++i)
+                insert_moved(_pos + i, std::move(tmp.m_data[i]));
+            return m_data + _pos;
         }
 
         iterator insert(int pos, const T &value)
@@ -419,6 +402,27 @@ namespace igris
         }
 
     protected:
+        // open a gap at index _pos and move value into it; every slot is
+        // either constructed (the new last one) or assigned (the live ones)
+        iterator insert_moved(size_t _pos, T &&value)
+        {
+            reserve(m_size + 1);
+            iterator first = m_data + _pos;
+            if (_pos == m_size)
+            {
+                igris::move_constructor(m_data + m_size, std::move(value));
+            }
+            else
+            {
+                igris::move_constructor(m_data + m_size,
+                                        std::move(m_data[m_size - 1]));
+                std::move_backward(first, m_data + m_size - 1, m_data + m_size);
+                *first = std::move(value);
+            }
+            m_size++;
+            return first;
+        }
+
         unsigned char changeBuffer(size_t sz)
         {
             size_t oldcapacity = m_capacity;
